@@ -195,7 +195,7 @@ def measure_cases(ctx, quick):
         chs = mgen.admissible_charges(ops, N)
         n = rng.choice(chs)
         try:
-            psi = mgen.int_mps(rng, ops, N, D_total=4, n=n)
+            psi = mgen.int_mps(rng, ops, N, D_total=4, n=n, cplx=rng.random() < 0.35)      # Gaussian-integer amplitudes in a third of the cases
         except Exception:
             continue
         v = mgen.dense_state(psi, ops).reshape(-1)
@@ -255,8 +255,10 @@ def measure_cases(ctx, quick):
                                   dict(desc0, kind='measure_2site-list', ops=(a_, b_), pair=(i, j), bonds=lst))
                     break
         # 2-site: all bond patterns
+        neutral_pairs = [(x_, y_) for x_ in names for y_ in names if not any(c_ != 0 for c_ in np.atleast_1d(ops.config.sym.add_charges(pool[x_].n, pool[y_].n)))]
+        charged_pairs = [pq for pq in neutral_pairs if any(c_ != 0 for c_ in np.atleast_1d(pool[pq[0]].n))]
         for _ in range(4):
-            a_, b_ = rng.choice(names), rng.choice(names)
+            a_, b_ = rng.choice(charged_pairs) if (charged_pairs and rng.random() < 0.6) else (rng.choice(names), rng.choice(names))
             O, P = pool[a_], pool[b_]
             if any(x != 0 for x in ops.config.sym.add_charges(O.n, P.n)):
                 continue
@@ -347,6 +349,23 @@ def measure_cases(ctx, quick):
                 ctx.count('sample:rejected')
             except Exception as e:
                 ctx.violation('sample raised %s: %s (%s %s N=%d, canonical form %s)' % (type(e).__name__, str(e)[:100], fam, sym, N, form), dict(desc0, kind='sample-crash', form=form))
+            # a COMPLEX product basis (eigenvectors of sigma_y; only the dense spin-1/2 has them as vectors): <y..y|psi> needs the conjugated vectors
+            if fam == 'Spin12' and sym == 'dense' and hasattr(ops, 'vec_y'):
+                try:
+                    projy = {0: ops.vec_y(val=1), 1: ops.vec_y(val=-1)}
+                    vy = {k_: pv.to_numpy().reshape(-1) for k_, pv in projy.items()}
+                    samples, probs = mps.sample(phi, projy, number=6, return_probabilities=True)
+                    for smp, p in zip(samples, probs):
+                        amp = T
+                        for s_ in smp:
+                            amp = np.tensordot(np.conj(vy[int(s_)]), amp, axes=(0, 0))
+                        ctx.count('sample:complex-basis')
+                        if not np.isclose(p, abs(amp) ** 2 / nw, rtol=1e-8, atol=1e-10):
+                            ctx.violation('sample in the sigma_y basis: returned probability %r of configuration %r is not the Born probability %r (N=%d, canonical form %s)' % (
+                                p, list(map(int, smp)), abs(amp) ** 2 / nw, N, form), dict(desc0, kind='sample-complex-basis', form=form, config=list(map(int, smp))))
+                            break
+                except yastn.YastnError:
+                    ctx.count('sample:complex-basis:rejected')
 
 
 def run(ctx):
